@@ -311,6 +311,32 @@ def _empty_format(cx, repo):
         fs = canon_facts(st[0])
         ok = ok and ("==", "''", "parsed_fmt.columns", True) in fs and ("is", "other", "None", False) in fs
     cx.ob("R13d", st[0] if st else rs_set, ok, "empty columns section: the current columns are cloned" if ok else "empty columns section does not clone every current column")
+    # whatever the layout: the reference format's column objects themselves must not become columns of this object (column
+    # objects carry negotiated widths): every use of other.columns that yields its elements yields clones
+    for occ in [n for n in walk_local(rs_set) if isinstance(n, ast.Attribute) and n.attr == "columns" and is_name(n.value, "other")]:
+        p_ = parent(occ)
+        alias = None
+        if isinstance(p_, ast.comprehension) and p_.iter is occ:
+            comp_ = parent(p_)
+            elt_ = getattr(comp_, "elt", None)
+            tv_ = norm(p_.target)
+            if elt_ is not None and norm(elt_) == tv_:
+                alias = f"`{norm(comp_)[:60]}` copies the list but keeps the column objects"
+        elif isinstance(p_, ast.Call) and occ in p_.args and isinstance(p_.func, ast.Name) and p_.func.id in ("list", "tuple", "sorted", "reversed"):
+            alias = f"`{norm(p_)}` copies the list but keeps the column objects"
+        elif isinstance(p_, ast.Call) and isinstance(p_.func, ast.Attribute) and p_.func.value is occ and p_.func.attr == "copy":
+            alias = f"`{norm(p_)}` copies the list but keeps the column objects"
+        elif isinstance(p_, ast.Subscript) and p_.value is occ and isinstance(p_.slice, ast.Slice):
+            alias = f"`{norm(p_)}` copies the list but keeps the column objects"
+        elif isinstance(p_, ast.Assign) and p_.value is occ:
+            alias = f"`{norm(p_)[:60]}` takes the other format's list itself"
+        elif isinstance(p_, ast.Call) and occ in p_.args and isinstance(p_.func, ast.Attribute) and p_.func.attr == "extend":
+            alias = f"`{norm(p_)[:60]}` adds the other format's column objects"
+        elif isinstance(p_, ast.Starred) or (isinstance(p_, ast.BinOp) and isinstance(p_.op, ast.Add)):
+            alias = f"`{norm(parent(p_))[:60]}` splices the other format's column objects in"
+        if alias:
+            cx.ob("R13d", occ, False, alias + ": the new format shares ReprColumn objects with the format it was derived from - widths negotiated for one table show up in the other, "
+                  "and the serialised fmt of either changes when the other is printed", stmt=norm(enclosing_stmt(occ))[:70] + " [aliasing]", semantic=True)
     fin = [s for s in rs_set.body if isinstance(s, ast.Assign) and any(is_self_attr(t, "columns") for t in s.targets)]
     ok = len(fin) == 1 and is_name(fin[0].value, "columns") and fin[0] is rs_set.body[-1]
     cx.ob("R13d", fin[0] if fin else rs_set, ok, "the new column list is installed" if ok else "self.columns is not set from the computed list at the end")
